@@ -4,6 +4,21 @@ import json
 
 CHECKS = {
 
+ "C10": dict(
+  engine="E2+E5",
+  technique="bounded exhaustive enumeration of (gRPC design, value / message sequence) pairs: real goa generators with a stand-in protoc, independent re-parse of the .proto files, generated client and server executed against each other over grpc/bufconn, compared with a reference validator and equality model",
+  text="For every accepted design of the gRPC families (every mappable primitive, arrays, maps over every key kind, nested collections, aliases, user types, self-reference, OneOf; field numbers incl. gaps, extremes, reserved range, duplicates; Metadata/Headers/Trailers partition; the four streaming kinds; validation keyword by position) the generator must succeed with the stand-in protoc (strict proto3 parser + protodesc.NewFile, the protobuf project's own validator); the check re-parses each .proto and asserts designed field numbers, uniqueness of numbers and names per message, one rpc per method and the designed stream qualifiers. Every candidate value (complete product for <= 2 attributes) is classified by the reference validator and sent generated client -> grpc.ClientConn -> bufconn -> grpc.Server -> generated server -> stub: valid payloads/results must arrive equal with metadata under the designed key, invalid ones must not reach user code. Streaming: all sequences of length 0-2 (thorough 0-3) per direction. Exhaustive within the envelope.",
+  design_ref="DESIGN.md section 3 C10, section 2 E5",
+  note="protoc and protoc-gen-go-grpc are stand-ins (messages are genuine protoc-gen-go output generated in-process); only the gen command is run; metadata values are printable ASCII; gRPC errors, views and security are not covered.",
+ ),
+ "C16": dict(
+  engine="E1",
+  technique="exhaustive enumeration of pattern sets x URL universe (escaped values substituted into every pattern, parsed by net/http's request parser) on the real Muxer against a reference segment matcher",
+  text="All patterns of 1-3 segments over {a, b, {x}, {y}, trailing {*w}/{*v}} x {GET, POST}; every legal set of 1-2 registrations over the full alphabet (size 3 over a reduced one; thorough: size 3 over a middle alphabet and sizes 4-6 over the reduced one) is mounted on the real goa Muxer and driven with every URL obtained by substituting url.PathEscape'd values from the string menu (percent look-alikes, slashes, plus, space, non-ASCII, empty and multi-segment catch-alls) into every pattern, parsed by http.ReadRequest, with middlewares that resolve the pattern before/after routing. Oracle: the handler reached is registered for the method and a pattern the reference matcher accepts, invoked once; Vars returns exactly the declared names with once-decoded values; ResolvePattern equals the registered string; unmatched requests get a 404 with a body decodable per its Content-Type. Plus a real httptest.Server pass.",
+  design_ref="DESIGN.md section 3 C16",
+  note="Which of several matching patterns wins, the status on a method mismatch and trailing-slash behaviour are not asserted (the statement is silent); Use after Handle panics inside chi and is recorded only.",
+ ),
+
  "C11": dict(
   engine="E1",
   technique="exhaustive enumeration of dependency graphs x registration orders x per-root behaviours on the real eval.Context / RunDSL, against independent topological-order and phase-barrier definitions",
@@ -140,6 +155,7 @@ def main():
             "add_only": True,
         },
         "engines": [
+            {"name": "E5", "path": "/verif/e5", "serves_properties": ["C10"], "kind_free_text": "stand-in protoc (cmd/protoc): strict proto3 parser for the subset goa emits, descriptor construction validated by protodesc.NewFile, genuine protoc-gen-go message code generated in-process, hand-written _grpc.pb.go generator"},
             {"name": "E3", "path": "/verif/sched", "serves_properties": ["C17", "C20"], "kind_free_text": "CHESS-style cooperative scheduler + stateless DFS explorer with iterative preemption bounding and sleep sets, vector-clock happens-before race oracle, sync/atomic shims; E4 source instrumenter (/verif/instr) producing go build -overlay copies of goa packages with scheduling points and shared-access hooks"},
             {"name": "E2", "path": "/verif/e2", "serves_properties": sorted(k for k, v in CHECKS.items() if "E2" in v["engine"]), "kind_free_text": "design-space enumerator (Spec + DSL builder + independent reference model), generate-compile-link pipeline (fresh genworker process per design, stub/glue generation from the generated interfaces' AST, go build of the corpus, one driver binary per family), generic reflection driver over an in-memory HTTP wire"},
             {"name": "E1", "path": "/verif/core", "serves_properties": sorted(CHECKS), "kind_free_text": "bounded exhaustive explorer plumbing: product/sequence/permutation/grouping enumerators, parallel sharding, violation signatures, known findings, 5x re-execution, replay files, evidence"},
